@@ -1,5 +1,6 @@
 import Pymc.Proofs.PooledRun
 import Pymc.Proofs.PooledCallExamples
+import Pymc.Proofs.HashPooledCallExamples
 /-!
 # C09 — sequential use of the connection pool by `PooledClient`
 
@@ -656,3 +657,105 @@ example :
   ⟨rfl, by decide +kernel, by decide +kernel⟩
 
 end PooledCall
+
+/-! ## `HashClient ∘ PooledClient ∘ Client`: every pool of a `HashClient(use_pooling=True)`
+
+Model: `Pymc/Model/HashPooledCall.lean` — the failover code of `HashClient` (`Pymc/Model/HashInner.lean`) around one
+`PooledClient` per server: `self.clients` maps every server to the `PooledClient` currently registered for it, whose state
+is a pool `PooledCall.St`; a contact is one `PooledCall.callP` (without `ignore_exc`) on that pool; `add_server` — in the
+constructor, and when `_retry_dead` brings a dead server back — registers a *new* `PooledClient` with an empty pool in the
+place of the old one.  Since a registered pool only ever changes by a `callP` and starts empty, everything the
+`C09_pooled_*` theorems say about one pooled call (`C09_pooled_projection`: it is a `Pooled.callT`, coherence is kept)
+makes the C09 invariants invariants of *every* pool registered in `self.clients` (`HashInner.runG_inv`).
+
+What `add_server` does *not* do is close the `PooledClient` it replaces: an idle inner client of the old pool keeps its
+open socket (until the object is garbage-collected); `HashPooledCallExamples.demo_leak` is such a run.  The old pool is
+unreachable, so this is outside the property ("never handed out again" holds trivially); it is a connection leak, at
+most one socket per revival in sequential use. -/
+namespace HashPooledCall
+open Exchange Client Framing Failover HashInner
+
+variable {Key : Type}
+
+/-- C09 (`HashClient(use_pooling=True)`, invariants of every pool).  After every call of every history of single-key
+calls on a fresh pooling `HashClient` — whatever the connections do, whatever the failover code does (marking, eviction,
+rerouting, revival with a fresh `PooledClient`) — the pool of the `PooledClient` registered for every server satisfies the
+C09 invariants: its projection satisfies `Pooled.Inv`; in particular no inner client is checked out, at most one is idle,
+no connection is closed twice, every connection the pool ever opened is closed or held by the idle client; and the
+pool is coherent (an inner client holds a connection id exactly when it holds a socket). -/
+theorem C09_hashpooled_pool_invariants (ccfg : Wire.Cfg) (pcfg : Pooled.Cfg) (fcfg : Failover.Cfg)
+    (route : List Srv → Key → Option Srv) (servers : List Srv) (t0 : Time) (calls : List (HPCall Key)) (n : Nat) :
+    ∀ p ∈ pools (runHP ccfg pcfg fcfg route (init pcfg servers t0) 0 (calls.take n)).1,
+      Pooled.Inv p.2.2.proj ∧ p.2.2.used = [] ∧ p.2.2.free.length ≤ 1 ∧ p.2.2.closed.Nodup ∧ PooledCall.Coh p.2.2 := by
+  intro p hp
+  obtain ⟨x, hx, hpx⟩ := mem_pools hp
+  rw [hpx]
+  -- the invariant of one pool is kept by one pooled call: `C09_pooled_projection`
+  have hstep : ∀ gc ∈ calls.take n, ∀ idx (s : PooledCall.St), PoolOK s →
+      PoolOK ((pooled pcfg).step ccfg idx gc.now gc.fin s gc.call gc.sc).1 ∧ True := by
+    intro gc _ idx s hs
+    obtain ⟨p1, -, -, -, p5⟩ := PooledCall.C09_pooled_projection ccfg pcfg false s idx gc.now gc.fin gc.call gc.sc hs.1
+    refine ⟨⟨p5, ?_⟩, trivial⟩
+    show Pooled.Inv (PooledCall.callP ccfg pcfg false s idx gc.now gc.fin gc.call gc.sc).1.proj
+    rw [p1]
+    exact Pooled.inv_callT _ _ _ hs.2
+  have hok : PoolOK x.2.st :=
+    (runG_inv (I := pooled pcfg) ccfg fcfg route (init pcfg servers t0) 0 (calls.take n) PoolOK (fun _ _ _ => True)
+      poolOK_init hstep (poolsOK_init servers t0)).1 x hx
+  obtain ⟨hcoh, hI⟩ := hok
+  refine ⟨hI, PooledCall.used_nil_of_proj hI.used_nil, ?_, hI.closed_nodup, hcoh⟩
+  have hlen := PooledCall.free_length_proj (x.2.st : PooledCall.St)
+  rw [← hlen]; exact hI.free_le
+
+/-- non-vacuity of `C09_hashpooled_pool_invariants`: the pools after each call of `HashPooledCallExamples.leakCalls`
+(`max_pool_size=2, pool_idle_timeout=3`; per pool: server, number of the `PooledClient`, idle clients as (id, connection,
+socket open, events left), closed connections, checked out).  Call 1 fails: inner client 0 of pool 0 is destroyed and its
+connection 0 closed.  Call 3 is the final probe made after `remove_server(0)`; it succeeds, so the old pool keeps inner
+client 2 idle on the open connection 1 — and call 6 replaces that pool by the fresh `PooledClient` 2 without closing it.
+Call 7 finds the idle client of pool 1 expired (idle since 9, now 20): connection 0 of that pool is closed. -/
+example :
+    HashPooledCallExamples.poolTrace {} HashPooledCallExamples.poolIdle HashCallExamples.cfgStrict HashPooledCallExamples.leakCalls =
+      [[⟨0, 0, [], [], 0⟩, ⟨1, 1, [], [], 0⟩],
+       [⟨0, 0, [(0, some 0, true, 0)], [], 0⟩, ⟨1, 1, [], [], 0⟩],
+       [⟨0, 0, [], [0], 0⟩, ⟨1, 1, [], [], 0⟩],
+       [⟨0, 0, [], [0], 0⟩, ⟨1, 1, [], [], 0⟩],
+       [⟨0, 0, [(2, some 1, true, 0)], [0], 0⟩, ⟨1, 1, [], [], 0⟩],
+       [⟨0, 0, [(2, some 1, true, 0)], [0], 0⟩, ⟨1, 1, [(0, some 0, true, 0)], [], 0⟩],
+       [⟨0, 0, [(2, some 1, true, 0)], [0], 0⟩, ⟨1, 1, [(0, some 0, true, 0)], [], 0⟩],
+       [⟨0, 2, [(0, some 0, true, 0)], [], 0⟩, ⟨1, 1, [(0, some 0, true, 0)], [], 0⟩],
+       [⟨0, 2, [(0, some 0, true, 0)], [], 0⟩, ⟨1, 1, [(1, some 1, true, 0)], [0], 0⟩]] :=
+  HashPooledCallExamples.demo_leak.2.1
+
+/-- C09 (`HashClient(use_pooling=True)`, the pool is never exhausted).  If `max_pool_size` allows even one client
+(`pcfg.maxSize ≠ 0`; Python's effective `max_size` is always ≥ 1), then in every history every invocation of a
+`PooledClient` is served by an inner client: `ObjectPool.get` never raises `RuntimeError("Too many objects")`, so no
+`HashClient` call ends with that exception — ordinary failures, evictions and revivals can never exhaust a pool. -/
+theorem C09_hashpooled_never_too_many (ccfg : Wire.Cfg) (pcfg : Pooled.Cfg) (fcfg : Failover.Cfg)
+    (route : List Srv → Key → Option Srv) (servers : List Srv) (t0 : Time) (calls : List (HPCall Key))
+    (hmax : pcfg.maxSize ≠ 0) :
+    ∀ ob ∈ (runHP ccfg pcfg fcfg route (init pcfg servers t0) 0 calls).2, ∀ po : PooledCall.PObs, ob.inner = some po →
+      po.res ≠ none ∧ ∀ s, ob.res ≠ .raised s .tooManyObjects := by
+  intro ob hob po hpo
+  have hres : po.res ≠ none :=
+    (runHP_poolsOK ccfg fcfg route (init pcfg servers t0) 0 calls (poolsOK_init servers t0)).2 hmax ob hob po hpo
+  refine ⟨hres, fun s hraised => ?_⟩
+  obtain ⟨i, hi⟩ := List.getElem?_of_mem hob
+  obtain ⟨gc, -, h⟩ := runG_steps (I := pooled pcfg) ccfg fcfg route (init pcfg servers t0) 0 calls i ob hi
+  obtain ⟨-, hro⟩ := h po hpo
+  have hnot : (pooled pcfg).res po ≠ .error .tooManyObjects := by
+    show resOf po ≠ _
+    unfold resOf
+    rcases hp : po.res with _ | (e | r)
+    · exact absurd hp hres
+    · exact fun h => by cases h
+    · exact fun h => by cases h
+  rw [hraised] at hro
+  rcases hro with ⟨r, -, h1 | h1⟩ | ⟨e, he, ⟨-, s', h1⟩ | ⟨-, -, h1⟩ | ⟨-, -, s', h1⟩ | ⟨-, h1⟩⟩
+  · cases h1
+  · cases h1
+  · cases h1; exact hnot he
+  · cases h1
+  · cases h1; exact hnot he
+  · cases h1
+
+end HashPooledCall
